@@ -3,7 +3,7 @@ CONSTANTS
   NL = 3
   NW = 2
   NT = 3
-  ECodes = {0, 103, 300, 1501, 1515, 205, 1400, 14}
+  ECodes = {0, 103, 300, 1501, 1515, 205}
   TCodes = {111,112,113,121,122,123,131,132,133,211,212,213,221,222,223,231,232,233,311,312,313,321,322,323,331,332,333}
   QuadIds = {4}
   ClampE = 15
@@ -17,17 +17,8 @@ CONSTANTS
   Dist = 3
   KD = 2
   Export = TRUE
-INVARIANT TelescopingPartial
 INVARIANT Telescoping
-INVARIANT CoefNonNeg
-INVARIANT OwnTemperaturesOnly
-INVARIANT IsothermalIdentity
 INVARIANT HotColdBounds
-INVARIANT FluxIdentityIffWeights
-INVARIANT FluxBounds
-INVARIANT EclipseIsothermalRatio
-INVARIANT EclipseBounds
-INVARIANT DirectProportional
 INVARIANT FitsInv
 CONSTRAINT Emit
 CHECK_DEADLOCK FALSE
